@@ -26,7 +26,9 @@ WIRES = {
             ("C08-YIELD-DRAIN", 'coro.drain_rule(run, f, "C08-YIELD-DRAIN")'),
             ("C08-REQUEST-PAIRING", 'wave2.request_pairing_rule(run, f, "C08-REQUEST-PAIRING")'),
             ("C08-NO-EXIT-BEFORE-YIELD", 'wave3.no_exit_before_yield_rule(run, f, "C08-NO-EXIT-BEFORE-YIELD")'),
-            ("C08-SUSPENDER-POPPED", 'wave3.suspender_popped_rule(run, f, "C08-SUSPENDER-POPPED")')],
+            ("C08-SUSPENDER-POPPED", 'wave3.suspender_popped_rule(run, f, "C08-SUSPENDER-POPPED")'),
+            # "a panic in the body is reported as an error": also when the panic happens inside a hooked call
+            ("C08-ERROR-FROM-SYSCALL", 'wave3.error_from_syscall_rule(run, f, "C08-ERROR-FROM-SYSCALL")')],
     "C09": [("C09-REQUEST-PAIRING", 'wave2.request_pairing_rule(run, f, "C09-REQUEST-PAIRING")'),
             ("C09-NO-EXIT-BEFORE-YIELD", 'wave3.no_exit_before_yield_rule(run, f, "C09-NO-EXIT-BEFORE-YIELD")'),
             ("C09-SUSPENDER-POPPED", 'wave3.suspender_popped_rule(run, f, "C09-SUSPENDER-POPPED")')],
@@ -56,7 +58,8 @@ WIRES = {
             ("C20-FRESH-EVENTS", 'wave3.fresh_events_rule(run, f, "C20-FRESH-EVENTS")')],
     "C24": [("C24-FAULT-SIGNALS-UNBLOCKED", 'wave2.fault_signals_unblocked_rule(run, f, "C24-FAULT-SIGNALS-UNBLOCKED")'),
             ("C24-ALWAYS-REDIRECTS", 'wave3.always_redirects_rule(run, f, "C24-ALWAYS-REDIRECTS")'),
-            ("C24-SUSPENDER-POPPED", 'wave3.suspender_popped_rule(run, f, "C24-SUSPENDER-POPPED")')],
+            ("C24-SUSPENDER-POPPED", 'wave3.suspender_popped_rule(run, f, "C24-SUSPENDER-POPPED")'),
+            ("C24-ERROR-FROM-SYSCALL", 'wave3.error_from_syscall_rule(run, f, "C24-ERROR-FROM-SYSCALL")')],
     "C25": [("C25-DELETERS", 'wave2.local_deleters_rule(run, f, "C25-DELETERS")'),
             ("C25-CURRENT-ENDS", 'wave2.current_ends_rule(run, f, "C25-CURRENT-ENDS")'),
             ("C25-GET-CONSULTS-MAP", 'wave3.local_get_consults_map_rule(run, f, "C25-GET-CONSULTS-MAP")')],
